@@ -39,7 +39,7 @@ def _norm(v):
     return v          # values are compared by identity first, then by type and equality (models.dispatch._veq)
 
 
-def run(prefix, ops, wcfgs, allowed_ops, act, slot_w=False, dev_check=True, level=0, selfun=False):
+def run(prefix, ops, wcfgs, allowed_ops, act, slot_w=False, dev_check=True, level=0, selfun=False, copied=0):
     """ops: list of (opcode, x) symbolic; wcfgs: list of (nidx, onlychanged, queued, precedence, kwmode) symbolic;
     act: bool, watcher 1 assigns b := a + 1 when it is told about a."""
     with untraced():
@@ -121,6 +121,14 @@ def run(prefix, ops, wcfgs, allowed_ops, act, slot_w=False, dev_check=True, leve
         oplog.append(wreg)
         for m in models.values():
             wreg(m)
+    if copied:
+        # the program runs on a copy (deepcopy / pickle round trip is not possible with local callbacks) of the object the
+        # watchers were registered on: the copy must dispatch exactly like the original (callbacks are plain functions and
+        # are shared; they read the object through the variable p, which now names the copy)
+        assume(level == 0 and not selfun)
+        import copy as _copy
+        with untraced():
+            p = _copy.deepcopy(p) if copied == 1 else _copy.copy(p)
     stack = []          # (kind, real context manager, {model name: saved})
     alive = dict(models)
     trig_in_batch = False
